@@ -34,7 +34,7 @@ PLAN = {
     'C09': {'gated': (['ctl', 'barrier'], 64, 750), 'free': (['ctl'], 64, 1200), 'model': ['MC_core']},
     'C10': {'gated': (['cancel', 'batch', 'reject'], 72, 800), 'free': (['cancel'], 64, 1200), 'model': ['MC_core']},
     'C04': {'gated': (['basic', 'multi', 'barrier', 'cancel'], 64, 750), 'free': (['basic'], 48, 800), 'model': []},
-    'C11': {'gated': (['adapter'], 60, 625), 'free': (['adapter'], 48, 800), 'model': [], 'crash': (40, 600)},
+    'C11': {'gated': ([('adapter', 3), 'distbind'], 72, 700), 'free': (['adapter'], 48, 800), 'model': [], 'crash': (40, 600)},
     'C12': {'gated': (['adapter'], 60, 625), 'free': (['adapter'], 48, 800), 'model': []},
     'C13': {'gated': (['dist', 'adapter', 'distbind'], 60, 625), 'free': (['dist'], 64, 1000), 'model': []},
     'C14': {'gated': (['life'], 48, 375), 'free': (['life'], 48, 600), 'model': [], 'life_exhaustive': (3, 4)},
@@ -363,8 +363,12 @@ def recovery_prog(ep):
     cfg = json.loads(json.dumps(p['cfg']))
     cfg.pop('crash_at', None)
     cfg['preload'] = [({'raw': x['bad'], 'job': 0, 'prio': x['prio']} if x['bad'] or x['job'] <= 0 else {'job': x['job'], 'prio': x['prio']}) for x in held]
-    return {'id': p['id'] + 'r', 'family': 'recovery', 'cfg': cfg, 'clients': [], 'outcome': p.get('outcome', {}),
-            'sched': {'kind': 'random', 'seed': p['sched'].get('seed', 1)}}
+    # the recovered adapter is bound by a client call, i.e. under the gate: the new worker's first look at the adapter is interleaved
+    # with the binding steps like everything else
+    kind = (cfg.get('queues') or ['pfifo'])[0]
+    cfg['queues'], cfg['nobind'] = [], True
+    return {'id': p['id'] + 'r', 'family': 'recovery', 'cfg': cfg, 'clients': [{'name': 'ctl', 'ops': [{'op': 'Bind', 'kind': kind}]}], 'outcome': p.get('outcome', {}),
+            'sched': {'kind': random.Random(p['sched'].get('seed', 1)).choice(['random', 'pct', 'rush', 'starve']), 'seed': p['sched'].get('seed', 1), 'favor': 'disp', 'depth': 2}}
 
 
 def load_corpus(pid):
